@@ -18,6 +18,19 @@ pub struct Obs {
     pub detail: String,
     pub signal: Option<i32>,
     pub millis: u128,
+    /// CPU time (user + system) the child spent on the job
+    pub cpu_ms: u64,
+}
+
+/// CPU time of a process so far in milliseconds (also works for a zombie).
+fn cpu_ms_of(pid: u32) -> Option<u64> {
+    let s = std::fs::read_to_string(format!("/proc/{pid}/stat")).ok()?;
+    let rest = &s[s.rfind(')')? + 2..];
+    let f: Vec<&str> = rest.split(' ').collect();
+    // fields after "pid (comm)": state=0, ..., utime=11, stime=12
+    let ticks: u64 = f.get(11)?.parse::<u64>().ok()? + f.get(12)?.parse::<u64>().ok()?;
+    let hz = unsafe { libc::sysconf(libc::_SC_CLK_TCK) }.max(1) as u64;
+    Some(ticks * 1000 / hz)
 }
 
 pub struct Worker {
@@ -102,6 +115,10 @@ impl Worker {
     }
 
     /// Sends one job line and waits for its `E` line, the child's death or the time limit.
+    ///
+    /// "Hang" is decided on the child's CPU time, not on the wall clock (the machine may be overloaded): when the
+    /// wall-clock limit passes, the child is given more time until it has really burnt `limit` of CPU; a child
+    /// that neither finishes nor uses CPU is given up after 30 x limit.
     pub fn job(&mut self, id: &str, line: &str) -> Obs {
         let t0 = Instant::now();
         self.ensure();
@@ -110,7 +127,10 @@ impl Worker {
             self.ensure();
             self.send(line);
         }
-        let deadline = t0 + self.limit;
+        let pid = self.child.as_ref().map(|c| c.id()).unwrap_or(0);
+        let cpu0 = cpu_ms_of(pid).unwrap_or(0);
+        let cpu = |pid: u32| cpu_ms_of(pid).unwrap_or(cpu0).saturating_sub(cpu0);
+        let mut deadline = t0 + self.limit;
         let mut refused: u64 = 0;
         loop {
             let left = deadline.saturating_duration_since(Instant::now());
@@ -125,31 +145,38 @@ impl Worker {
                                 outcome: p[2].to_string(), consumed: p[3].parse().unwrap_or(0),
                                 max_alloc: p[4].parse::<u64>().unwrap_or(0).max(refused),
                                 detail: String::from_utf8_lossy(&unhex(p.get(5).copied().unwrap_or("-"))).into_owned(),
-                                signal: None, millis: t0.elapsed().as_millis(),
+                                signal: None, millis: t0.elapsed().as_millis(), cpu_ms: cpu(pid),
                             }
                         }
                         "EOF" => {
+                            let cpu_ms = cpu(pid);
                             let (sig, code) = self.reap();
                             return Obs {
                                 outcome: if sig.is_some() || code == Some(86) { "abort".into() } else { "exit".into() }, consumed: 0, max_alloc: refused,
                                 detail: if code == Some(86) { format!("allocation of {refused} bytes requested (refused by the harness; the shipped binary aborts or holds that much)") }
                                         else { format!("child died: signal {sig:?} exit code {code:?}") },
-                                signal: sig, millis: t0.elapsed().as_millis(),
+                                signal: sig, millis: t0.elapsed().as_millis(), cpu_ms,
                             }
                         }
                         _ => {}
                     }
                 }
                 Err(RecvTimeoutError::Timeout) => {
+                    let used = cpu(pid);
+                    if (used as u128) < self.limit.as_millis() * 8 / 10 && t0.elapsed() < self.limit * 30 {
+                        deadline = Instant::now() + self.limit / 2;      // starved, not hanging: keep waiting
+                        continue
+                    }
                     self.kill();
                     return Obs { outcome: "hang".into(), consumed: 0, max_alloc: refused,
-                                 detail: format!("no result within {} s; child killed", self.limit.as_secs()), signal: None,
-                                 millis: t0.elapsed().as_millis() }
+                                 detail: format!("no result after {} ms of CPU time ({} ms wall); child killed", used, t0.elapsed().as_millis()),
+                                 signal: None, millis: t0.elapsed().as_millis(), cpu_ms: used }
                 }
                 Err(RecvTimeoutError::Disconnected) => {
+                    let cpu_ms = cpu(pid);
                     let (sig, code) = self.reap();
                     return Obs { outcome: "abort".into(), consumed: 0, max_alloc: refused,
-                                 detail: format!("child gone: signal {sig:?} exit code {code:?}"), signal: sig, millis: t0.elapsed().as_millis() }
+                                 detail: format!("child gone: signal {sig:?} exit code {code:?}"), signal: sig, millis: t0.elapsed().as_millis(), cpu_ms }
                 }
             }
         }
